@@ -41,8 +41,11 @@ def run_session(root: str, spec: dict) -> None:
             single_process=spec.get("single_process", True))
         return
     cm = dataset.filler() if spec["kind"] == "root" else DatasetFiller(dataset, relative_path_from_split=Path(spec["subdir"]))
+    import time
     with cm as filler:
         for split, ident in spec["writes"]:
+            if spec.get("delay"):
+                time.sleep(spec["delay"])      # a slow writer, for the live concurrent-reader cases
             filler.write_example(values=dsmod.example(ident), split=split)
 
 
@@ -84,9 +87,11 @@ def handle(request: dict) -> dict:
     inject = request.get("inject")
     if inject:
         cmd += ["-e", f"inject={inject['syscall']}:signal=SIGKILL:when={inject['when']}"]
+    if request.get("untraced"):
+        cmd = ["sleep", "0"]
     tracer = subprocess.Popen(cmd, stdout=subprocess.DEVNULL, stderr=subprocess.PIPE)
     attached = False
-    for _ in range(5000):
+    for _ in range(0 if request.get("untraced") else 5000):
         try:
             status = open(f"/proc/{pid}/status").read()
         except OSError:
